@@ -1,6 +1,7 @@
 package zygo
 
 import (
+	"fmt"
 	"sort"
 	"strings"
 
@@ -81,10 +82,14 @@ outer:
 	return prefix, c, end
 }
 
+// NewPrompter starts the line editor. The line editor needs a terminal:
+// when standard input is not one (a pipe, a file, /dev/null) the Prompter
+// that comes back has no editor, and HasEditor() says so; the caller reads
+// plain lines then.
 func NewPrompter(prompt string) *Prompter {
 	origMode, err := liner.TerminalMode()
 	if err != nil {
-		panic(err)
+		return &Prompter{prompt: prompt}
 	}
 
 	p := &Prompter{
@@ -95,7 +100,8 @@ func NewPrompter(prompt string) *Prompter {
 
 	rawMode, err := liner.TerminalMode()
 	if err != nil {
-		panic(err)
+		p.prompter.Close()
+		return &Prompter{prompt: prompt}
 	}
 	p.rawMode = rawMode
 
@@ -105,19 +111,29 @@ func NewPrompter(prompt string) *Prompter {
 	return p
 }
 
+// HasEditor reports whether the line editor is in use.
+func (p *Prompter) HasEditor() bool {
+	return p.prompter != nil
+}
+
 func (p *Prompter) Close() {
-	defer p.prompter.Close()
+	if p.prompter != nil {
+		defer p.prompter.Close()
+	}
 }
 
 func (p *Prompter) Getline(prompt *string) (line string, err error) {
+	if p.prompter == nil {
+		return "", fmt.Errorf("no line editor: standard input is not a terminal")
+	}
 	applyErr := p.rawMode.ApplyMode()
 	if applyErr != nil {
-		panic(applyErr)
+		return "", applyErr
 	}
 	defer func() {
 		applyErr := p.origMode.ApplyMode()
-		if applyErr != nil {
-			panic(applyErr)
+		if applyErr != nil && err == nil {
+			line, err = "", applyErr
 		}
 	}()
 
